@@ -3,6 +3,7 @@ package main
 import (
 	"math/rand"
 	"strconv"
+	"strings"
 
 	"github.com/tableauio/tableau/proto/tableaupb"
 	"github.com/tableauio/tableau/verifhook"
@@ -136,4 +137,94 @@ func init() {
 		}
 		return "err " + errCode(err)
 	})
+}
+
+func init() {
+	// e2e.C12.contiguity: one horizontal list (scalar or struct elements) or horizontal map, one data row, every
+	// presence pattern of its N element slots (exhaustive for N ≤ 5): accepted iff the present elements are a prefix.
+	regStream("e2e.C12.contiguity", func(r *rand.Rand, n int, emit func(string, ...string)) {
+		count := 0
+		for _, shape := range []string{"scalar", "struct", "map"} {
+			for N := 1; N <= 5; N++ {
+				for mask := 0; mask < 1<<N; mask++ {
+					var cells []string
+					for i := 0; i < N; i++ {
+						if mask&(1<<i) != 0 {
+							cells = append(cells, strconv.Itoa(10+i))
+						} else {
+							cells = append(cells, "")
+						}
+					}
+					emit("c12.contig", append([]string{shape, strconv.Itoa(N)}, encAll(cells)...)...)
+					count++
+				}
+			}
+		}
+		for count < n {
+			shape := []string{"scalar", "struct", "map"}[r.Intn(3)]
+			N := 1 + r.Intn(8)
+			var cells []string
+			for i := 0; i < N; i++ {
+				if r.Intn(3) != 0 {
+					cells = append(cells, strconv.Itoa(1+r.Intn(50)+100*i))
+				} else {
+					cells = append(cells, "")
+				}
+			}
+			emit("c12.contig", append([]string{shape, strconv.Itoa(N)}, encAll(cells)...)...)
+			count++
+		}
+	})
+	regImpl("c12.contig", func(a []string) string {
+		opts, desc, grid := contigCase(a)
+		return implTableParse([]string{opts, desc, grid})
+	})
+}
+
+func encAll(ss []string) []string {
+	var out []string
+	for _, s := range ss {
+		out = append(out, encStr(s))
+	}
+	return out
+}
+
+// contigCase builds the sheet of a contiguity case (the Lean driver builds the same one from the same args).
+func contigCase(a []string) (opts, desc, grid string) {
+	shape := a[0]
+	N := int(mustInt(a[1]))
+	var cells []string
+	for _, c := range a[2:] {
+		cells = append(cells, mustStr(c))
+	}
+	o := tpOpts{nr: 1, tr: 2, nor: 3, dr: 4}
+	var f *tField
+	var names []string
+	switch shape {
+	case "scalar":
+		f = &tField{num: 1, name: "Item", card: 'l', layout: 'h', kind: "i32", protoName: "item_list"}
+		for i := 1; i <= N; i++ {
+			names = append(names, "Item"+strconv.Itoa(i))
+		}
+	case "struct":
+		f = &tField{num: 1, name: "Item", card: 'l', layout: 'h', kind: "m", protoName: "item_list",
+			sub: []*tField{{num: 1, name: "ID", card: 'o', layout: 'd', kind: "i32", protoName: "id"}}}
+		for i := 1; i <= N; i++ {
+			names = append(names, "Item"+strconv.Itoa(i)+"ID")
+		}
+	default:
+		f = &tField{num: 1, name: "Item", key: "ID", card: 'm', layout: 'h', kind: "m", protoName: "item_map",
+			sub: []*tField{{num: 1, name: "ID", card: 'o', layout: 'd', kind: "i32", protoName: "id"}}}
+		for i := 1; i <= N; i++ {
+			names = append(names, "Item"+strconv.Itoa(i)+"ID")
+		}
+	}
+	var dt []string
+	tdescTokens([]*tField{f}, &dt)
+	typ := make([]string, N)
+	note := make([]string, N)
+	for i := range typ {
+		typ[i], note[i] = "type", "note"
+	}
+	return o.token(), strings.Join(dt, " "), encGrid([][]string{names, typ, note, cells})
 }
